@@ -541,7 +541,10 @@ func genScript(r *rng.R, t *tb, extras []extra, likely []string, pkgs []Pkg, in 
 		if d == "/" {
 			d = ""
 		}
-		if strings.ContainsAny(d, "*?[\\ \t'\"") || strings.ContainsAny(b, "?[\\ \t'\"") {
+		if strings.ContainsAny(d, "*?[\\ \t'\"") {
+			return r.Pick(wildDirs) + "/" + r.Pick(pats)
+		}
+		if strings.ContainsAny(b, "?[\\ \t'\"") {
 			return d + "/*"
 		}
 		switch r.Intn(5) {
